@@ -19,7 +19,7 @@ RULE = ("same program / history generator as C01 (DAGs of 3-12 nodes, every sign
         "equal-value writes, arena signals / memos disposed in the middle of the history), half of the "
         "cases with 1-3 effects (Effect::new, RenderEffect, watch, isomorphic; some writing signals) and schedules (poll the "
         "k-th ready task, run to idle); plus the 'zones' (untrack zones with several reads), 'immediate' (ImmediateEffect subscribers, "
-        "oracle only) and 'deep' (chains of 270-1000 memos) families of C01. Observation = every body invocation with the values it read. A case is non-trivial "
+        "oracle only) and 'deep' (chains of 270-700 memos) families of C01. Observation = every body invocation with the values it read. A case is non-trivial "
         "when some body ran at least twice; distinct = distinct case hash.")
 TRUSTED = [
     "Coq 8.16.1 kernel (coqc); no axioms: every theorem of Properties_C09.v is 'Closed under the global context'",
@@ -40,7 +40,7 @@ ASSUMPTIONS = [
     "marks of the same write may still reach it) are not held to 'once per change'; every other memo run is. Observed on the "
     "unchanged code: an ImmediateEffect that reads a memo runs twice for one change of it (once from the memo's "
     "mark_dirty of its subscribers inside the effect's source check, once because that check then reports a change)",
-    "deep chains (270-1000 memos) are part of the generated graphs; stacked diamonds are kept to at most 4 per chain "
+    "deep chains (270-700 memos) are part of the generated graphs; stacked diamonds are kept to at most 4 per chain "
     "(the push phase re-propagates on every incoming path)",
 ]
 LEVEL_TEXT = ("Coq proofs, over the same executable model as C01/C02 instrumented with ghost causes, that a memo body is invoked "
@@ -74,8 +74,9 @@ def _main_stream(rng, tier):
 def generate(rng, tier):
     deep = []
     for i in range(4 if tier == "quick" else 16):
-        depth = rng.randint(270, 400) if (tier == "quick" or i % 3) else rng.randint(600, 1000)
-        deep.append(dict(case=C.norm(X.gen_deep_case(rng, depth, n_diamonds=rng.choice([0, 2, 4]), with_effect=(i % 2 == 1))),
+        big = tier != "quick" and i % 3 == 0
+        depth = rng.randint(500, 700) if big else rng.randint(270, 400)
+        deep.append(dict(case=C.norm(X.gen_deep_case(rng, depth, n_diamonds=0 if big else rng.choice([0, 2, 4]), with_effect=(i % 2 == 1))),
                          kind="deep", compare=True))
     return X.interleave(_main_stream(rng, tier), deep, 5000 if tier == "quick" else 12000)
 
